@@ -50,7 +50,11 @@ def eq_judge(line, m, i):
 
 
 def default_feature_sets(tier):
-    return [[], core.WIRE_FEATURES] if tier == "quick" else core.all_wire_feature_sets()
+    # quick: nothing, each wire feature alone, everything - a member gated by the wrong feature shows exactly where the two differ,
+    # and for every ordered pair of features one of the single-feature sets has the first on and the second off
+    if tier == "quick":
+        return [[]] + [[f] for f in core.WIRE_FEATURES] + [core.WIRE_FEATURES]
+    return core.all_wire_feature_sets()
 
 
 def _refs(ty):
